@@ -178,6 +178,11 @@ func (fr *Frame) checkReturn(r returnInfo, ct *FuncContract) {
 		}
 	}
 	for i, c := range ct.Ensures {
+		if strings.HasPrefix(c.Label, "assumed-") {
+			// an assumption about the function, usable by its callers, that the verifier does not check (listed in the evidence)
+			fx.note("assumed postcondition (not checked): " + fx.eng.shortName(fn) + " [" + c.Label + "]")
+			continue
+		}
 		g, err := env.evalGoal(c.Expr)
 		if err != nil {
 			fx.unsupported = append(fx.unsupported, fmt.Sprintf("ensures %q: %v", c.Src, err))
